@@ -21,9 +21,9 @@ import (
 
 func init() {
 	core.Register(&core.Check{
-		ID: "C42",
-		Rule: "cases: (a) every identifier string [A-Za-z_][A-Za-z0-9_]* of length <= 3 (quick) / <= 4 (thorough) and PRNG longer identifiers (also dotted, as used for nested names): GoCamelCase yields an exported Go identifier; (b) GoSanitized on every string of length <= 3 (<= 4) over a 24-character alphabet incl. punctuation, digits, non-ASCII letters, marks and Go keywords, and on PRNG Unicode strings: a valid non-keyword Go identifier; (c) the same identifier strings as FieldMask paths: whenever protojson marshals the path, JSONSnakeCase(JSONCamelCase(s)) == s; (d) protogen name derivation in-process (protogen.Options.New on generated CodeGeneratorRequests, open and opaque API level): messages whose field and oneof names are drawn from a collision-seeking pool (foo / get_foo / Foo / foo_ / _foo / reset / string / descriptor / build / has_x / set_x / clear_x / which_x, oneofs named like camel-cased fields): all struct member names, getter/setter/has/clear/which method names, oneof wrapper, nested-type, enum and enum-value identifiers are valid exported identifiers and pairwise distinct where Go requires it; distinct = distinct strings / field-name sets; non-trivial = string of length >= 2",
-		Assume: []string{"go/token.IsIdentifier, token.IsExported, token.Lookup", "the naming scheme of generated code transcribed in checks/c42.go (struct members, GetX/SetX/HasX/ClearX/WhichX, Msg_Field wrapper types)"},
+		ID:         "C42",
+		Rule:       "cases: (a) every identifier string [A-Za-z_][A-Za-z0-9_]* of length <= 3 (quick) / <= 4 (thorough) and PRNG longer identifiers (also dotted, as used for nested names): GoCamelCase yields an exported Go identifier; (b) GoSanitized on every string of length <= 3 (<= 4) over a 24-character alphabet incl. punctuation, digits, non-ASCII letters, marks and Go keywords, and on PRNG Unicode strings: a valid non-keyword Go identifier; (c) the same identifier strings as FieldMask paths: whenever protojson marshals the path, JSONSnakeCase(JSONCamelCase(s)) == s; (d) protogen name derivation in-process (protogen.Options.New on generated CodeGeneratorRequests, open and opaque API level): messages whose field and oneof names are drawn from a collision-seeking pool (foo / get_foo / Foo / foo_ / _foo / reset / string / descriptor / build / has_x / set_x / clear_x / which_x, oneofs named like camel-cased fields): all struct member names, getter/setter/has/clear/which method names, oneof wrapper, nested-type, enum and enum-value identifiers are valid exported identifiers and pairwise distinct where Go requires it; distinct = distinct strings / field-name sets; non-trivial = string of length >= 2",
+		Assume:     []string{"go/token.IsIdentifier, token.IsExported, token.Lookup", "the naming scheme of generated code transcribed in checks/c42.go (struct members, GetX/SetX/HasX/ClearX/WhichX, Msg_Field wrapper types)"},
 		Exhaustive: func(tier string) bool { return false },
 		Batches: func(tier string) []core.Batch {
 			var bs []core.Batch
